@@ -145,7 +145,7 @@ Theorem C01_check_dims_source_refines_model : forall lbl st args dl sh sm env,
   | (CFail, sm') => exists env2, run_body lbl st check_dims_src env = OReturn (VS "msg") env2 /\ good args env2 sm'
   | (CRaise e, sm') => exists env2, run_body lbl st check_dims_src env = ORaise e env2 /\ good args env2 sm'
   end.
-Proof. exact check_dims_src_refines_model. Qed.
+Proof. exact (fun lbl st args => check_dims_src_refines_model lbl st args no_calls). Qed.
 Print Assumptions C01_check_dims_source_refines_model.
 
 Example C01_check_dims_source_nonvacuous :
@@ -153,4 +153,31 @@ Example C01_check_dims_source_nonvacuous :
   run_src check_dims_src None [] "a b a" [2; 3; 4]%Z [] [] = "ret:msg {a=2,b=3}" /\
   run_src check_dims_src (Some "(Leaf 0 in structure T) ") [] "?a" [5]%Z [] [] = "ret: {(Leaf 0 in structure T) a=5}" /\
   run_src check_dims_src None [] "?a" [5]%Z [] [] = "raise:AnnotationError {}".
+Proof. vm_compute. repeat split. Qed.
+
+(* ... and the whole shape decision: the term generated from _MetaAbstractArray._check_shape (prefix axes, suffix axes, the
+   variadic axis with its broadcasting rules; Python slices with negative bounds; the calls of _check_dims; the memo
+   dictionaries passed by reference) computes model/Check.v's check_shape, for every dim string the parser accepts, every
+   shape and every state of the bindings *)
+From JT Require Import model.PyLRun proofs.PyLShapeFacts proofs.StrictWfFacts.
+Theorem C01_check_shape_source_refines_model : forall lbl st s d sh m env,
+  parse_dims s = Ok d -> goodS env d sh m ->
+  exists env2,
+    run_body_with (calls lbl st) lbl st check_shape_src env =
+      match fst (check_shape lbl st d sh m) with
+      | COk => OReturn (VS "") env2 | CFail => OReturn (VS "msg") env2 | CRaise e => ORaise e env2
+      end /\ memo_in env2 (snd (check_shape lbl st d sh m)).
+Proof. exact (fun lbl st s d sh m env Hp Hg => check_shape_src_refines_model lbl st d sh m env Hg (parse_dims_strict_wf s d Hp)). Qed.
+Print Assumptions C01_check_shape_source_refines_model.
+
+(* what the parser guarantees and the theorem above needs: at most one multi-axis specifier, at index_variadic *)
+Theorem C01_parsed_dims_have_one_variadic : forall s d, parse_dims s = Ok d -> strict_wf d.
+Proof. exact parse_dims_strict_wf. Qed.
+Print Assumptions C01_parsed_dims_have_one_variadic.
+
+Example C01_check_shape_source_nonvacuous :
+  run_shape_src None [] "a *#v b" [2; 1; 3; 5]%Z (mkmemo [("b", 5%Z)] [("v", (true, [4; 3]%Z))] []) = "ret: S{b=5,a=2} V{v=T(4,3)}" /\
+  run_shape_src None [] "a *v b" [2; 1; 3; 5]%Z (mkmemo [("b", 5%Z)] [("v", (true, [4; 3]%Z))] []) = "ret:msg S{b=5,a=2} V{v=T(4,3)}" /\
+  run_shape_src None [] "a ... b" [2]%Z empty_memo = "ret:msg S{} V{}" /\
+  run_shape_src None [] "*v a" [7; 8; 2]%Z empty_memo = "ret: S{a=2} V{v=F(7,8)}".
 Proof. vm_compute. repeat split. Qed.
